@@ -220,7 +220,7 @@ def run_rules(spec, props=("C12",)):
                     A.add(V("C04", fn, cls, s, m, pre))
         if "C05" in props:
             if not full:
-                for s, m in mon.c05_arrays(arrs, n, tmin, I0, R0, True):
+                for s, m in mon.c05_arrays(arrs, n, tmin, I0, R0, True, G=G):
                     A.add(V("C05", fn, cls, s, m, pre))
             else:
                 for s, m in mon.c05_full(out, nodes, tmin, I0, R0, True):
@@ -426,7 +426,7 @@ def run_prob(spec, props=("C12",)):
                 A.add(V("C04", fn, cls, s, m, pre))
         if "C05" in props:
             if not full:
-                for s, m in mon.c05_arrays(arrs, n, tmin, I0, R0, not sis):
+                for s, m in mon.c05_arrays(arrs, n, tmin, I0, R0, not sis, G=G):
                     A.add(V("C05", fn, cls, s, m, pre))
             else:
                 for s, m in mon.c05_full(out, nodes, tmin, I0, R0, not sis):
